@@ -11,7 +11,8 @@ Ktys == {"oct", "RSA", "EC", "OKP"}
 ValueMembers(kty) == JwkRequired(kty) \cup (JwkPrivate(kty) \ {"oth"})
 ParamMembers == {"use", "key_ops", "alg", "kid", "x5c", "x5u"}
 Mutations == {"delete", "int", "null", "list", "obj", "bool", "bad_b64", "empty", "flip", "contradict", "unknown_value",
-              "other_key", "negate"}   \* the member (EC: the point) of another well-formed key of the type; EC y -> p - y
+              "other_key", "negate",
+              "drop_primes", "drop_with_pair", "only_this_left"}   \* several RSA CRT members deleted at once (see below)   \* the member (EC: the point) of another well-formed key of the type; EC y -> p - y
 
 \* the verdict the statement fixes: "refuse", "accept", or "either" (outside the statement)
 \* public and private halves that are each well formed but do not belong together: such a key cannot "interoperate with
@@ -20,8 +21,14 @@ Contradictory(kty, private, m, mut) ==
   /\ private /\ kty # "oct" /\ m \in (JwkRequired(kty) \cup JwkPrivate(kty)) \ {"crv", "oth"}
   /\ mut = "other_key" \/ (mut = "negate" /\ kty = "EC" /\ m = "y")
 
+\* partial RSA CRT parameters are refused whichever members are missing: p and q both gone (the others left), a member gone
+\* together with its partner (p with dp, q with dq, qi with p), or only one of the five left
+CrtMembers == {"p", "q", "dp", "dq", "qi"}
+PartialCrt(kty, private, m, mut) == kty = "RSA" /\ private /\ m \in CrtMembers /\ mut \in {"drop_primes", "drop_with_pair", "only_this_left"}
+
 Verdict(kty, private, m, mut) ==
-  IF mut \in {"other_key", "negate"} THEN (IF Contradictory(kty, private, m, mut) THEN "refuse" ELSE "either")
+  IF mut \in {"drop_primes", "drop_with_pair", "only_this_left"} THEN (IF PartialCrt(kty, private, m, mut) THEN "refuse" ELSE "either")
+  ELSE IF mut \in {"other_key", "negate"} THEN (IF Contradictory(kty, private, m, mut) THEN "refuse" ELSE "either")
   ELSE IF m \in JwkRequired(kty) THEN
        (IF mut \in {"delete", "int", "null", "list", "obj", "bool", "bad_b64"} THEN "refuse"
         ELSE IF m = "crv" /\ mut \in {"flip", "unknown_value", "empty"} THEN "refuse"
